@@ -371,26 +371,6 @@ pub fn top_statements(block: &Value) -> Vec<TopStmt> {
     out
 }
 
-/// does a require group of two or more members (the groups of `expected_order`) have a member inside an ignore region?
-pub fn region_touches_group(stmts: &[TopStmt]) -> bool {
-    let mut i = 0;
-    while i < stmts.len() {
-        let Some(k) = &stmts[i].kind else {
-            i += 1;
-            continue;
-        };
-        let mut j = i + 1;
-        while j < stmts.len() && stmts[j].kind.as_ref() == Some(k) && stmts[j].start_line.saturating_sub(stmts[j - 1].end_line) <= 1 {
-            j += 1;
-        }
-        if j - i >= 2 && stmts[i..j].iter().any(|s| s.in_region) {
-            return true;
-        }
-        i = j;
-    }
-    false
-}
-
 /// The permutation the documented rule prescribes: result[i] = index of the input statement that comes i-th.
 /// `untouchable(i)`: statement i must not move (ignored, or not wholly inside the range)
 pub fn expected_order(stmts: &[TopStmt], untouchable: &dyn Fn(usize) -> bool) -> Vec<usize> {
